@@ -78,5 +78,23 @@ func isoMain(args []string) error {
 		call("ToGo", aseName(lvl), func() string { return fmt.Sprint(int(lvl.ToGo())) })
 		call("String", aseName(lvl), func() string { return lvl.String() })
 	}
+	// a function has no memory: whatever was translated before, every level translates to the same answer
+	// (every ASE level is asked again behind every forward translation, and the forward ones behind the backward ones)
+	for s := -2; s <= 9; s++ {
+		dblib.ASEIsolationLevelFromGo(sql.IsolationLevel(s))
+		for a := 0; a <= 5; a++ {
+			lvl := dblib.ASEIsolationLevel(a)
+			call("ToGo", aseName(lvl), func() string { return fmt.Sprint(int(lvl.ToGo())) })
+			call("String", aseName(lvl), func() string { return lvl.String() })
+			_ = lvl.ToGo()
+			call("FromGo", fmt.Sprint(s), func() string {
+				x, err := dblib.ASEIsolationLevelFromGo(sql.IsolationLevel(s))
+				if err != nil {
+					return "error"
+				}
+				return aseName(x)
+			})
+		}
+	}
 	return tr.Close()
 }
